@@ -383,6 +383,10 @@ func (c *Conn) Write(p []byte) (int, error) {
 		if len(p) == 0 {
 			return 0, nil
 		}
+		if !c.wdl.IsZero() && !c.wdl.After(time.Now()) {
+			// like package net: past its deadline a write fails at once, room or no room
+			return written, c.opErr("write", timeoutError{})
+		}
 		room := len(p)
 		if s.cap > 0 {
 			room = s.cap - s.size
